@@ -46,6 +46,8 @@ type frame struct {
 	panic            interface{}
 	phitemps         []value
 	depth            int
+	spec             bool            // frame created inside a speculation (if-conversion)
+	phisDone         *ssa.BasicBlock // phis of this block were already assigned by tryMerge
 }
 
 func (fr *frame) get(key ssa.Value) value {
@@ -131,6 +133,9 @@ func (c *Ctx) visitInstr(fr *frame, instr ssa.Instruction) (ret bool) {
 	c.steps++
 	if c.steps > c.maxSteps {
 		panic(pathAbort{"bound", fmt.Sprintf("step bound %d exceeded", c.maxSteps)})
+	}
+	if c.specDepth > 0 {
+		c.specCheck(fr, instr)
 	}
 	switch instr := instr.(type) {
 	case *ssa.DebugRef:
@@ -245,6 +250,9 @@ func (c *Ctx) visitInstr(fr *frame, instr ssa.Instruction) (ret bool) {
 				c.unsupported("branch on poison at %s", c.posStr(instr.Pos()))
 			}
 			panic(fmt.Sprintf("If on %T", cond))
+		}
+		if ct.Op != OpBConst && c.tryMerge(fr, instr, ct) {
+			break
 		}
 		succ := 1
 		pos := instr.Pos()
@@ -504,7 +512,7 @@ func (c *Ctx) callSSA(caller *frame, callpos token.Pos, fn *ssa.Function, args [
 	if depth > maxDepth {
 		panic(pathAbort{"bound", "call depth exceeded in " + fn.String()})
 	}
-	fr := &frame{c: c, caller: caller, fn: fn, depth: depth}
+	fr := &frame{c: c, caller: caller, fn: fn, depth: depth, spec: c.specDepth > 0}
 	if c.trace {
 		fmt.Fprintf(os.Stderr, "%s-> %s (%s)\n", strings.Repeat(" ", depth), fn, c.posStr(callpos))
 	}
@@ -636,6 +644,10 @@ func (c *Ctx) executePhis(fr *frame) []ssa.Instruction {
 		}
 	}
 	nonPhis := fr.block.Instrs[firstNonPhi:]
+	if fr.phisDone == fr.block {
+		fr.phisDone = nil
+		return nonPhis
+	}
 	if firstNonPhi > 0 {
 		phis := fr.block.Instrs[:firstNonPhi]
 		predIndex := -1
